@@ -533,7 +533,9 @@ class _Client:
             rng = np.random.default_rng(o["seed"])
             try:
                 mg = obj.generate(rng=rng)
-                if mg.weight < 220 and mg.fully_generated:
+                # the search of get_ensemble_prob is exponential for branched / longer molecules: the same deterministic size
+                # criterion as for ensemble_prob_value decides whether it is called (a watchdog would be a harness error)
+                if mg.fully_generated and mg.mol.GetNumAtoms() <= 12 and not any(len(r.bond_descriptors) > 2 for r in obj.residues):
                     g.mol_prob.get_ensemble_prob(mg.smiles, obj)
             except SimAbort:
                 raise
